@@ -199,7 +199,7 @@ def main(argv):
         for frm, to in t:
             lines += [frm + frm, "a" + frm, frm + "a", "a " + frm + " b", frm + "\U0001F600", "\U0001F600" + frm]
     lines += ["a\U0001F600b", "\U0001F600", "\U0001F600\U0001F600", "x\U0010FFFF", "' s", "' s ", "a' s", "' sfoo", "' s x", "' s\U0001F600",
-              "chapter \u2167", "\u01c5", "\u24b6\u24cf x", "\u1f88 a", "x\u2160\u216f", "a\u00a0b", "1\u00bd kg", "\u00b5m \u00b2", "n\u00ba 3", "\u0133 \u0140 \u017f", "\u02b0\u02e2", "\u01c5 \u01f2",
+              "a' s", "a' s b", "5 - year - old", "5 - years - old x", "3{", "x\r", "' s\r", "\r", "chapter \u2167", "\u01c5", "\u24b6\u24cf x", "\u1f88 a", "x\u2160\u216f", "a\u00a0b", "1\u00bd kg", "\u00b5m \u00b2", "n\u00ba 3", "\u0133 \u0140 \u017f", "\u02b0\u02e2", "\u01c5 \u01f2",
               "a\U000200abb", "\U00020027 s", "\U00022026", "\U00012019x", "\U0001201c\U0001201d", "\U00010026 amp ;", "\U00010020- year - old",
               "' S", "a' S b", "5 - YEAR - OLD", "& QUOT ;", "& Amp ;", "Æ' S", "' s\u00a0x", "' s\u2028", "' s\tx", "' s\u3000", "' s\u0085", "' s\u200b", "' s\u00a0", "5 - year - old\u00a0k",
               "5 - year - old", "5 - year - old ", "5 - year - olds", "5 - years - old\t", "''' s ", "````", "& amp ; quot ;", "& amp", "& amp ;;",
@@ -271,7 +271,21 @@ def main(argv):
             if o != want and "\u03a3" not in l:      # (final sigma: UnicodeString::toLower and ucasemap agree, kept out only to be safe)
                 c.violation("lower: util::ToLower(%r) = %s, UnicodeString::toLower gives %r" % (l, o, icu.lower(l)), {"op": "util::ToLower", "input": l, "impl": o, "expected": want})
                 break
-    starts = {code: build_starts(P, var) for var, code in langs}
+    # The composition per language is pinned here from the property ("the listed substitutions for the language"):
+    # the table CONTENTS are regenerated from the source, which tables a language uses is the specification.
+    PINNED = {"en": [("kGeneralReplace", "false"), ("kReplaceWithQuote", "false"), ("kReplaceForEnglishRightBoundary", "true"), ("kReplaceForEnglish", "false")],
+              "fr": [("kGeneralReplace", "false"), ("kReplaceForFrench", "false")],
+              "de": [("kGeneralReplace", "false"), ("kReplaceWithQuote", "false")],
+              "es": [("kGeneralReplace", "false"), ("kReplaceWithQuote", "false")],
+              "cs": [("kGeneralReplace", "false")]}
+    starts = {}
+    for var, code in langs:
+        if code in PINNED and all(t in P["tables"] for t, _ in PINNED[code]):
+            if P["ops"][var] != PINNED[code]:
+                c.broken.append("AllFlattenData composes %r for language %s, the property lists %r" % (P["ops"][var], code, PINNED[code]))
+            starts[code] = build_starts(dict(P, ops={var: PINNED[code]}), var)
+        else:
+            starts[code] = build_starts(P, var)
     if fout is not None:
         for (code, l), o in zip(fcases, fout):
             has_supp = any(ord(ch) > 0xFFFF for ch in l)
@@ -292,6 +306,7 @@ def main(argv):
     inputs = []
     fixed = [["A“x” É", "B“y” É", "C“z” É", "D“w” É", "E“v” É"], ["ﬁ", "ﬁ", "ﬁ"], ["a\U0001F600b"], [""], ["", "", "x"],
              ["' s", "5 - year - old", "``q''"], ["İ", "ΑΣ", "①"], ["a' S", "5 - YEAR - OLD x", "& QUOT ;"],
+             ["a\r", "\r", "b\rc", "' s\r", "\u201cq\u201d\r", "last\r"], ["a' s", "5 - year - old", "7{ - years - old"],
              ["chapter \u2167", "\u01c5", "\u24b6\u24cf x", "\u1f88"], ["a\u00a0b", "1\u00bd kg", "\u00b5m\u00b2", "n\u00ba 3 \u0133\u017f"],
              ["a\U000200abb", "\U00020027 s", "\U00022026 \U00012019"]]
     for f in fixed:
@@ -306,7 +321,7 @@ def main(argv):
     truns = []
     for k, ls in enumerate(inputs):
         for fs in FLAGSETS:
-            for (var, code) in (langs if (not quick or k < 3) else rng.sample(langs, 2)):
+            for (var, code) in (langs if (not quick or k < len(fixed)) else rng.sample(langs, 2)):
                 data = u8("\n".join(ls) + "\n")
                 if k % 5 == 4 and ls[-1] != "":
                     data = data[:-1]               # last line without newline
